@@ -51,6 +51,9 @@ CHECKS["C18"] = ("who-may-write (OWN) and ordering (ORD) rules over polytopes.py
 CHECKS["C10"] = ("syntax-directed dataflow over the frame loop (per-iteration reset dominance), inversion-parity count on the rotation chain, sibling agreement of selection strings and quaternion constructors, ordering of frame collection, writer wiring",
     "Structural clauses: every in-place mutation of the moving molecule is preceded in its iteration by a restore from a loop-invariant snapshot; the rotation matrix is R(q) of row[3:] with even inversion parity and the translation +row[:3]; one frame per row in row order; atom order molecule 1 then 2; siblings agree. MDAnalysis' rigid-body arithmetic is trusted.", "6 C10")
 
+CHECKS["C11"] = ("abstract interpretation of AssignmentTool's composition and selection kernels with symbolic sizes (index polynomial, outer-bound linear form, NaN path conditions), selector polarity / axis-role rule (SELECT)",
+    "Index composition (t*n_o+o)*n_b+b, nearest-radius selection, outer bound = 3/2 r_T - 1/2 r_{T-1} with NaN exactly beyond it unless outliers are included, nearest direction and nearest rotation selected by argmin along the grid axis. Recovery of the molecule's rotation from principal axes for continuous inputs is numerical and not decided.", "6 C11")
+
 NOT_APPLICABLE = {
     "C06": "Cartesian Voronoi cell geometry is produced by qhull and floating-point predicates (polygon vertex ordering, F2); no static abstract domain in reach separates the failing coordinate configurations; the one structural clause is too thin to claim the property (DESIGN.md section 6, C06).",
     "C07": "distinctness/separation/hemisphere membership of computed coordinates are numerical facts; the row-count and unit-norm clauses are already run-time assertions, so a static restatement would only test the presence of those asserts (DESIGN.md section 6, C07).",
